@@ -168,8 +168,9 @@ func runC05(w *World, r *Report, tier string) {
 	fQ := w.Field("xmpp.SMState.UnAckQueue")
 	nLoads := 0
 	checked := map[string]bool{}
-	var derefCheck func(fn *ssa.Function, v ssa.Value, via string, depth int)
-	derefCheck = func(fn *ssa.Function, v ssa.Value, via string, depth int) {
+	// (known: the caller passes v only where it has found it non-nil — an extracted helper running under its caller's guard)
+	var derefCheck func(fn *ssa.Function, v ssa.Value, via string, depth int, known bool)
+	derefCheck = func(fn *ssa.Function, v ssa.Value, via string, depth int, known bool) {
 		if depth > 4 || v.Referrers() == nil {
 			return
 		}
@@ -185,12 +186,12 @@ func runC05(w *World, r *Report, tier string) {
 					continue
 				}
 				checked[cons] = true
-				guarded := len(nonNil) > 0 && !reachable(entryLoc(fn), func(in ssa.Instruction) bool { return in == ssa.Instruction(x) }, nil, nonNil)
+				guarded := known || (len(nonNil) > 0 && !reachable(entryLoc(fn), func(in ssa.Instruction) bool { return in == ssa.Instruction(x) }, nil, nonNil))
 				r.Check(guarded, "R4", cons, w.ipos(x), "the unacknowledged-stanza queue is dereferenced without a nil test, but it is nil until stream management has been enabled: an unsolicited <a/> from the server (route → SendMissingStz(…, nil)) panics inside the routing goroutine and kills the process", "dominated by a != nil test")
 			case *ssa.UnOp:
 				if x.Op == token.MUL && x.X == v {
 					cons := fmt.Sprintf("%s#deref:*(%s)", w.funcKey(fn), via)
-					guarded := len(nonNil) > 0 && !reachable(entryLoc(fn), func(in ssa.Instruction) bool { return in == ssa.Instruction(x) }, nil, nonNil)
+					guarded := known || (len(nonNil) > 0 && !reachable(entryLoc(fn), func(in ssa.Instruction) bool { return in == ssa.Instruction(x) }, nil, nonNil))
 					r.Check(guarded, "R4", cons, w.ipos(x), "the queue pointer is dereferenced without a nil test", "dominated by a != nil test")
 				}
 			case ssa.CallInstruction:
@@ -199,9 +200,10 @@ func runC05(w *World, r *Report, tier string) {
 				if callee == nil || callee.Blocks == nil || !w.inModule(callee) {
 					continue
 				}
+				callGuarded := known || (len(nonNil) > 0 && !reachable(entryLoc(fn), func(in ssa.Instruction) bool { return in == x.(ssa.Instruction) }, nil, nonNil))
 				for i, a := range cc.Args {
 					if a == v && i < len(callee.Params) {
-						derefCheck(callee, callee.Params[i], via+"→"+w.funcKey(callee), depth+1)
+						derefCheck(callee, callee.Params[i], via+"→"+w.funcKey(callee), depth+1, callGuarded)
 					}
 				}
 			}
@@ -213,7 +215,7 @@ func runC05(w *World, r *Report, tier string) {
 		}
 		nLoads += len(w.owners(a.Fn)) // a helper shared by two senders stands for both of their loads
 		if v, ok := a.Instr.(ssa.Value); ok {
-			derefCheck(a.Fn, v, "from "+w.funcKey(a.Fn), 0)
+			derefCheck(a.Fn, v, "from "+w.funcKey(a.Fn), 0, false)
 		}
 	}
 	if nLoads < 3 {
